@@ -110,6 +110,9 @@ pub trait WalletBackend<'ck, C, K> where C: NodeClient + 'ck, K: Keychain + 'ck 
     fn tx_log_iter<'a>(&'a self) -> (r: VIter<TxLogEntry>)
         ensures enumerates_log(r@, self.state().tx_log), r@ == seq_of_log(self.state().tx_log);
 
+    // the stored transaction file of a slate (LMDBBackend::get_stored_tx is itself a unit, lmdb_stored_tx): any content
+    fn get_stored_tx(&self, uuid: &str) -> (r: Result<Option<Transaction>, Error>);
+
     fn batch<'a>(&'a mut self, keychain_mask: Option<&SecretKey>) -> (r: Result<Box<dyn WalletOutputBatch<K> + 'a>, Error>)
         ensures
             r matches Ok(b) ==> old(self).state().has_keychain && old(self).state().valid_masks.contains(opt_key(keychain_mask))
